@@ -51,6 +51,7 @@ PROPS = {
         dict(kind="sched", mode="sharing", quick=120, thorough=3000)]),
     "C04": dict(theorems=["Props/C04.v"], parts=[
         dict(kind="core", profile="C04", mask="keys,qset", preds="c04,wf", quick=Q, thorough=T),
+        dict(kind="core", profile="C04X", mask="nkeys", preds="c04", quick=300, thorough=6000),
         dict(kind="macro", profile="C04", preds="limit", mask="nkeys,qset", quick=300, thorough=8000)]),
     "C05": dict(theorems=["Props/C05.v", "parts/memest/coq|CLM|Props_C05_memest.v"], parts=[
         dict(kind="core", profile="C05", mask="keys,qset,size", preds="c05,wf", quick=Q, thorough=T),
@@ -651,6 +652,12 @@ def check_sched_case(lines, table):
             deadlock = "deadlock=1" in l
             if deadlock:
                 problems.append("DEADLOCK " + l[6:])
+            elif "timeout=1" in l:
+                problems.append("NORETURN f%d: a call did not return within 15 s although no thread waits for an observed lock" % f)
+        elif t[0] == "X" and t[1] == "hung":
+            problems.append("NORETURN f%d: calls never returned (%s)" % (f, " ".join(t[2:]) or "process killed by the watchdog"))
+        elif t[0] == "X" and t[1] == "crashed":
+            problems.append("PANIC f%d: the process running the schedule ended abnormally (%s)" % (f, " ".join(t[2:])))
         elif t[0] == "BAD":
             problems.append(l[4:])
         elif t[0] == "STATS":
@@ -687,6 +694,20 @@ def check_sched_case(lines, table):
     return deadlock, problems
 
 
+def case_text(text, cid):
+    """the raw input block (header line .. END) of the schedule with this id"""
+    out, on = [], False
+    for l in text.split("\n"):
+        t = l.split()
+        if t and t[0] in ("CCASE", "PCASE", "STRESS", "CASE") and len(t) > 1:
+            on = t[1] == cid
+        if on:
+            out.append(l)
+            if l.startswith("END"):
+                break
+    return "\n".join(out) + "\n"
+
+
 def part_sched(run, part):
     ensure_corpus()
     if not build_harness(run, "vh-macro"):
@@ -721,14 +742,28 @@ def part_sched(run, part):
     want = part["mode"]
     n_dead = n_bad = reached = blocked = 0
     reported = 0
+    unconfirmed = 0
     for cid, lines in sorted(outs.items()):
         dl, problems = check_sched_case(lines, table)
+        if any(p.startswith("NORETURN") for p in problems):
+            # a call that does not return is only believed when it does not return again with the
+            # machine to itself (one schedule, nothing else running)
+            solo_in, solo_out = BUILD + "/sched_solo_%s.txt" % run.pid, BUILD + "/sched_solo_obs_%s.txt" % run.pid
+            body = case_text(text, cid)
+            with open(solo_in, "w") as fh:
+                fh.write(body)
+            sh("%s/target/debug/vh-macro run %s %s" % (BUILD, solo_in, solo_out), timeout=600)
+            lines2 = [l.rstrip("\n") for l in open(solo_out)] if os.path.exists(solo_out) else []
+            again = bool(lines2) and any(p.startswith("NORETURN") for p in check_sched_case(lines2, table)[1])
+            if not again:
+                problems = [p for p in problems if not p.startswith("NORETURN")]
+                unconfirmed += 1
         if any("reached=1" in l for l in lines):
             reached += 1
         if any("b_blocked=1" in l for l in lines):
             blocked += 1
         if want == "deadlock":
-            mine = [p for p in problems if p.startswith("DEADLOCK")]
+            mine = [p for p in problems if p.startswith("DEADLOCK") or p.startswith("NORETURN")]
         elif want == "sharing":
             mine = [p for p in problems if p.startswith("MISS")]
         elif want == "stats":
@@ -749,7 +784,8 @@ def part_sched(run, part):
     run.ext_nontrivial += reached
     run.cov["histograms"]["schedules"] = dict(generated=geninfo["schedules"], full_enumeration=geninfo["enumeration"],
                                                pause_point_reached=reached, second_thread_blocked=blocked,
-                                               deadlocks=n_dead, op_pairs=geninfo["op_pairs"])
+                                               deadlocks=n_dead, op_pairs=geninfo["op_pairs"],
+                                               no_return_not_reproduced_alone=unconfirmed)
     run.cov["exhaustive"] = geninfo["schedules"] == geninfo["enumeration"]
     some = sorted(outs.items())[:1]
     run.cov["samples"] += [dict(schedule=l) for _, ls in some for l in ls[:12]]
